@@ -166,5 +166,39 @@ theorem calculateFee_congr (val : Nat → Bool → Int → Nat) (minFee : Nat) (
   unfold calculateFee
   rw [sumInputs_congr val r1.byId r2.byId ts tx.inputs 0 h]
 
+/-- decidable form of the "useful outputs" hypothesis -/
+theorem useful_of_dec {m : TreeMap String (List (Option Utxo))} {is : List Input}
+    (h : ∀ i ∈ is, (match lookup m i with | .ok u => slotLive (some u) | .error _ => true) = true) :
+    ∀ i ∈ is, ∀ u, lookup m i = .ok u → slotLive (some u) = true := by
+  intro i hi u hl
+  have := h i hi
+  rw [hl] at this
+  exact this
+
+
 end UtxoReg
+
+namespace Node
+open UtxoReg
+
+/-- a property of the running copy that every kept transaction of `pre` preserves holds of the copy after `pre` -/
+theorem greedy_run_induct (env : Env) (cfg : Cfg) (confirmed : UtxoReg) (ts last next : Int) (P : UtxoReg → Prop) :
+    ∀ (pre : List Tx) (copy : UtxoReg),
+      (∀ c x c', x ∈ pre → P c → c.update [x] next = .ok c' → P c') → P copy →
+      P (greedy env cfg confirmed ts last next pre copy).2
+  | [], copy, _, h0 => h0
+  | x :: pre, copy, hstep, h0 => by
+    unfold greedy
+    split
+    · apply greedy_run_induct env cfg confirmed ts last next P pre _
+        (fun c y c' hy => hstep c y c' (List.mem_cons_of_mem _ hy))
+      unfold advance
+      cases hu : copy.update [x] next with
+      | error e => exact h0
+      | ok c' => exact hstep copy x c' List.mem_cons_self h0 hu
+    · exact greedy_run_induct env cfg confirmed ts last next P pre copy
+        (fun c y c' hy => hstep c y c' (List.mem_cons_of_mem _ hy)) h0
+
+
+end Node
 end Ru
